@@ -9,9 +9,20 @@
 
    Both the ORDER and the LOCATION (c->value, c->waited, nw->waiting) of every access are looked up in the REGENERATED
    inventory Gen/Sites.v (sites_counter_c: s_order, s_target); a site that is missing or has another kind than the event
-   the model emits gets no ordering credit.  The two semaphore operations of the model (EvV / EvP) are the successful
-   compare-and-swaps of nsync_mu_semaphore_v and nsync_mu_semaphore_p / _p_with_deadline on the semaphore word: they
-   are instrumented as read-modify-writes with exactly the orders sites_nsync_semaphore_futex_c gives these CASes.
+   the model emits gets no ordering credit.
+   The WAKE-UP hand-off (the one C03 claims) goes through nw->waiting only: counter.c:76 ATM_STORE_REL (&nw->waiting, 0)
+   in nsync_counter_add (model event EvStore 105 u _, u = the thread whose record was popped from c->waiters) and
+   counter.c:136 ATM_LOAD_ACQ (&nw->waiting) in counter_dequeue (model event EvLoad 602 _ by the waiter).  All other
+   stores to a `waiting' flag are instrumented too, with the (relaxed) order the inventory gives them: enqueue#2/#3
+   (EvStore 502/503), dequeue#3 (EvStore 603), and wait.c:54 ATM_STORE (&nw[i].waiting, 0) of nsync_wait_n
+   (sites_wait_c, nsync_wait_n#1), which CounterModel folds into the step at pc WEnq (event EvLoad 501 _, exec:
+   [set_waiting (set_mu w (Some t)) t 0]): on EvLoad 501 by thread t the instrumentation FIRST performs that store on
+   LWaiting t (a relaxed store resets the release view of the flag to bottom), THEN the load.
+   The two semaphore operations of the model (EvV / EvP) are the successful compare-and-swaps of nsync_mu_semaphore_v
+   and nsync_mu_semaphore_p / _p_with_deadline on the semaphore word: they are instrumented as read-modify-writes with
+   exactly the orders sites_nsync_semaphore_futex_c gives these CASes.  This is the FUTEX flavour of the semaphore only
+   (the mutex/condvar and sem_t flavours have no such sites); nothing of the C03 claim is credited to it: the wake-up
+   theorem (counter_wakes -> counter_dequeue_load) does not use LSem at all.
    The abstract lock counter_mu gets NO ordering credit here (the mutex hand-off is C03_mutex_handoff).
    CounterModel is not re-implemented: its [step] runs alongside and the instrumentation consumes the event it returns.
    Definitions only; proofs in Proof/HbCounterProof.v. *)
@@ -84,6 +95,13 @@ Definition do_rmw (h : chb) (t : nat) (l : loc) (o : aorder) : chb :=
   let v := if has_acq o then vjoin (cviews h t) (crel h l) else cviews h t in
   mk_chb (fupd (cviews h) t v) (if has_rel o then lupdv (crel h) l (vjoin (crel h l) v) else crel h).
 
+(* wait.c:54 ATM_STORE (&nw[i].waiting, 0) in nsync_wait_n, folded by CounterModel into the step of enqueue#1 *)
+Definition wait_n_store_order : aorder :=
+  HbOnce.site_order_in sites_wait_c "nsync_wait_n" 1 Kstore "waiting.nw.i".
+(* applied before the load of every EvLoad s: the folded store when s is enqueue#1 (501), nothing otherwise *)
+Definition wait_n_store (h : chb) (t : nat) (s : Z) : chb :=
+  if s =? 501 then do_store h t (LWaiting t) wait_n_store_order else h.
+
 Definition actor (l : label) : option nat := match l with LStep t | LTimeout t => Some t | LTick _ => None end.
 
 (* effect of one CounterModel event on the happens-before state *)
@@ -93,7 +111,7 @@ Definition chb_step (h : chb) (lab : label) (e : ev) : chb :=
   | Some t =>
       let h := mk_chb (fupd (cviews h) t (vtick (cviews h t) t)) (crel h) in
       match e with
-      | EvLoad s _ => do_load h t (cloc s t) (corder Kload s)
+      | EvLoad s _ => do_load (wait_n_store h t s) t (cloc s t) (corder Kload s)
       | EvStore s u _ => do_store h t (cloc s u) (corder Kstore s)
       | EvCas s _ _ true => do_rmw h t (cloc s t) (corder Kcas s)
       | EvV u => do_rmw h t (LSem u) sem_v_order
@@ -130,3 +148,9 @@ Definition counter_wait_returns (x : Z) (ob : cobs) : Prop :=
 (* nsync_counter_add's V on the semaphore of thread u's waiter; thread u's successful P *)
 Definition counter_posts (u : nat) (ob : cobs) : Prop := co_ev ob = EvV u.
 Definition counter_woken (u : nat) (ob : cobs) : Prop := co_ev ob = EvP /\ actor (co_lab ob) = Some u.
+(* the wake-up hand-off proper: nsync_counter_add's ATM_STORE_REL (&nw->waiting, 0) (counter.c:76) on the record of
+   thread u, popped from c->waiters *)
+Definition counter_wakes (u : nat) (ob : cobs) : Prop := exists v, co_ev ob = EvStore 105 u v.
+(* thread u's ATM_LOAD_ACQ (&nw->waiting) in counter_dequeue (counter.c:136) *)
+Definition counter_dequeue_load (u : nat) (ob : cobs) : Prop :=
+  exists x, co_ev ob = EvLoad 602 x /\ actor (co_lab ob) = Some u.
